@@ -1292,7 +1292,12 @@ ds:
 |
     fnCall opt_as
     {
-        $$ = &FnDataSourceStmt{fnCall: $1.(*FnCall), as: $2}
+        fc, ok := $1.(*FnCall)
+        if !ok {
+            yylex.Error("window functions can not be used as a data source")
+            goto ret1
+        }
+        $$ = &FnDataSourceStmt{fnCall: fc, as: $2}
     }
 |
     '(' HISTORY OF IDENTIFIER ')' opt_as
